@@ -3,6 +3,7 @@ package symgo
 import (
 	"fmt"
 	"go/types"
+	"os"
 
 	"golang.org/x/tools/go/ssa"
 )
@@ -19,7 +20,12 @@ type nativeStringer struct{ s string }
 
 func (e nativeStringer) String() string { return e.s }
 
-func (in *Exec) opaqueStr() Str { return Str{B: []*Term{in.byteConst('?')}, Opaque: true} }
+func (in *Exec) opaqueStr() Str {
+	if os.Getenv("VF_DEBUG_OPAQUE") != "" {
+		fmt.Fprintf(os.Stderr, "opaque formatted string at %s\n", in.where())
+	}
+	return Str{B: []*Term{in.byteConst('?')}, Opaque: true}
+}
 
 // toNative converts an interface-typed engine value into a Go value for the real fmt; ok=false if symbolic/unsupported.
 func (in *Exec) toNative(fr *frame, v value) (interface{}, bool) {
@@ -54,6 +60,8 @@ func (in *Exec) toNative(fr *frame, v value) (interface{}, bool) {
 			}
 			s, okc := res.(Str).Concrete()
 			if !okc {
+				// the text is symbolic: kept for the piecewise formatter (%s / %v / %w / %q print exactly this text)
+				in.fmtSym, in.fmtSymOK = res.(Str), true
 				return nil, false
 			}
 			if mname == "Error" {
@@ -119,6 +127,11 @@ func (in *Exec) toNative(fr *frame, v value) (interface{}, bool) {
 }
 
 func (in *Exec) sprintf(fr *frame, format value, args value) Str {
+	return in.sprintfW(fr, format, args, false)
+}
+
+// sprintfW formats like fmt.Sprintf, or like fmt.Errorf (which alone understands %w) when errorf is set.
+func (in *Exec) sprintfW(fr *frame, format value, args value, errorf bool) Str {
 	f, ok := format.(Str).Concrete()
 	if !ok {
 		return in.opaqueStr()
@@ -139,6 +152,9 @@ func (in *Exec) sprintf(fr *frame, format value, args value) Str {
 		nat = append(nat, n)
 	}
 	if allNative {
+		if errorf {
+			return in.mkStr(fmt.Errorf(f, nat...).Error())
+		}
 		return in.mkStr(fmt.Sprintf(f, nat...))
 	}
 	// piecewise: literal text, natively formatted concrete operands, and symbolic strings under %s/%v/%q
@@ -168,10 +184,18 @@ func (in *Exec) sprintf(fr *frame, format value, args value) Str {
 		a := argv[argi]
 		argi++
 		i = j
+		in.fmtSymOK = false
 		if n, ok := in.toNative(fr, a); ok {
+			if f[j] == 'w' && errorf {
+				if _, isErr := n.(error); isErr {
+					verb = verb[:len(verb)-1] + "v"
+				}
+			}
 			out = append(out, in.mkStr(fmt.Sprintf(verb, n)).B...)
 			continue
 		}
+		methodText, hasMethodText := in.fmtSym, in.fmtSymOK
+		in.fmtSymOK = false
 		ia, isI := a.(iface)
 		if !isI || ia.t == nil {
 			return in.opaqueStr()
@@ -204,10 +228,18 @@ func (in *Exec) sprintf(fr *frame, format value, args value) Str {
 			}
 		}
 		sv, isStr := ia.v.(Str)
+		if hasMethodText {
+			sv, isStr = methodText, true
+		}
 		if !isStr || sv.Opaque || len(verb) != 2 {
 			return in.opaqueStr()
 		}
 		switch f[j] {
+		case 'w':
+			if !hasMethodText || !errorf {
+				return in.opaqueStr()
+			}
+			out = append(out, sv.B...)
 		case 's', 'v':
 			out = append(out, sv.B...)
 		case 'q':
@@ -301,7 +333,7 @@ func init() {
 	reg("fmt.Sprint", func(in *Exec, fr *frame, a []value) value { return in.sprint(fr, a[0], false) })
 	reg("fmt.Sprintln", func(in *Exec, fr *frame, a []value) value { return in.sprint(fr, a[0], true) })
 	reg("fmt.Errorf", func(in *Exec, fr *frame, a []value) value {
-		msg := in.sprintf(fr, a[0], a[1])
+		msg := in.sprintfW(fr, a[0], a[1], true)
 		var wrapped []value
 		if f, ok := a[0].(Str).Concrete(); ok && a[1] != nil {
 			args := a[1].([]value)
